@@ -327,4 +327,57 @@ theorem ipTo4_of_len16 (ip : Bytes) (h : ip.length = 16) :
       intro a1 a2 a3 a4 a5 a6 a7 a8 a9 a10 a11
       exact hc a1 a2 a3 a4 a5 a6 a7 a8 a9 a10 a11
 
+/-! ### canonical names are lower-case -/
+
+theorem asciiLower_of_no_upper (s : Bytes) (h : ∀ c ∈ s, ¬ (65 ≤ c ∧ c ≤ 90)) : asciiLower s = s := by
+  induction s with
+  | nil => rfl
+  | cons c s ih =>
+    have hc := h c (by simp)
+    have := ih (fun x hx => h x (by simp [hx]))
+    simp only [asciiLower, List.map_cons] at this ⊢
+    rw [this]; simp [lowerByte, hc]
+
+theorem hexChar_not_upper (n : Nat) : ¬ (65 ≤ hexChar n ∧ hexChar n ≤ 90) := by
+  have hall : ∀ k : Fin 16, ¬ (65 ≤ hexChar k.val ∧ hexChar k.val ≤ 90) := by decide
+  by_cases h : n < 16
+  · exact hall ⟨n, h⟩
+  · have : hexChar n = 0 := by
+      unfold hexChar
+      simp only [List.getD_eq_getElem?_getD]
+      rw [List.getElem?_eq_none (by simp; omega)]; rfl
+    omega
+
+theorem ptr4_not_upper (b : List Nat) : ∀ c ∈ ptr4 b, ¬ (65 ≤ c ∧ c ≤ 90) := by
+  intro c hc
+  rcases mem_joinDot _ c hc with rfl | ⟨l, hl, hcl⟩
+  · omega
+  · simp only [List.mem_append, List.mem_map, List.mem_reverse, List.mem_cons, List.not_mem_nil, or_false] at hl
+    rcases hl with ⟨x, _, rfl⟩ | rfl | rfl
+    · have := dec_digits x c hcl; omega
+    · simp [lblInAddr] at hcl; omega
+    · simp [lblArpa] at hcl; omega
+
+theorem ptr6_not_upper (b : List Nat) : ∀ c ∈ ptr6 b, ¬ (65 ≤ c ∧ c ≤ 90) := by
+  intro c hc
+  rcases mem_joinDot _ c hc with rfl | ⟨l, hl, hcl⟩
+  · omega
+  · simp only [List.mem_append, List.mem_flatMap, List.mem_reverse, nibbleLabels, List.mem_cons, List.not_mem_nil, or_false] at hl
+    rcases hl with ⟨x, _, rfl | rfl⟩ | rfl | rfl
+    · simp at hcl; subst hcl; exact hexChar_not_upper _
+    · simp at hcl; subst hcl; exact hexChar_not_upper _
+    · simp [lblIp6] at hcl; omega
+    · simp [lblArpa] at hcl; omega
+
+/-- the canonical PTR name is its own ASCII lower-casing -/
+theorem canonPTR_lower (a : Addr) : asciiLower (canonPTR a) = canonPTR a := by
+  apply asciiLower_of_no_upper
+  cases a with
+  | invalid => simp [canonPTR]
+  | v4 b => exact ptr4_not_upper b
+  | v6 b z =>
+    simp only [canonPTR]; split
+    · exact ptr4_not_upper _
+    · exact ptr6_not_upper b
+
 end GolibsVerif.C04
